@@ -22,6 +22,7 @@ import (
 	"errors"
 	"fmt"
 	"math/rand"
+	"runtime"
 	"strings"
 	"sync"
 	"sync/atomic"
@@ -55,9 +56,16 @@ type fake struct {
 	burst    bool
 	failPerK int64 // of 1000 calls, how many fail (deterministic by call number)
 	inflight bool
+	perturb  int64 // yield on every perturb-th PendingRequests call (0: never)
+	scans    atomic.Int64
 }
 
-func (f *fake) PendingRequests() int { return int(f.pending.Load()) }
+func (f *fake) PendingRequests() int {
+	if f.perturb > 0 && f.scans.Add(1)%f.perturb == 0 {
+		runtime.Gosched() // seeded schedule perturbation inside the selection scan
+	}
+	return int(f.pending.Load())
+}
 
 func (f *fake) DoDeadline(req *fasthttp.Request, resp *fasthttp.Response, deadline time.Time) error {
 	n := f.calls.Add(1)
@@ -395,8 +403,9 @@ func runBurst(r *mon.Run, idx int, rnd *rand.Rand) (class string, calls int, lb 
 	churn := rnd.Intn(2) == 0
 	lb = &fasthttp.LBClient{}
 	var idc atomic.Int64
+	perturb := []int64{0, 2, 3, 7}[rnd.Intn(4)]
 	mk := func() *fake {
-		return &fake{id: int(idc.Add(1)), burst: true, failPerK: failPerK, inflight: true}
+		return &fake{id: int(idc.Add(1)), burst: true, failPerK: failPerK, inflight: true, perturb: perturb}
 	}
 	for i := 0; i < nClients; i++ {
 		lb.Clients = append(lb.Clients, mk())
@@ -608,7 +617,7 @@ var meter *stallMeter
 func TestC40(t *testing.T) {
 	r := mon.Start(t, "C40")
 	defer r.Finish()
-	r.Rule("sequential history = fresh LBClient with 1-4 scripted fake BalancingClients, 20-200 (sometimes ~1000, 95% failing) steps of Do/DoTimeout/DoDeadline with scripted pending values, errors/500s, three HealthCheck kinds, AddClient/RemoveClients (incl. remove-all); each call judged against the (pending+penalty,total)-minimal set of a same-goroutine VerifLBState snapshot. burst = 4-16 goroutines x 40-250 calls with concurrent membership churn; near-cap round = fresh LBClient, one client filled to 295-299 penalties sequentially, then 8-16 failing calls parked in HealthCheck on a spin barrier and released by one atomic store, settled penalty read through VerifLBState; expiry = poll VerifLBState after penalised calls. distinct = (clients, healthcheck, failure rate, pending range, membership ops, cap reached, empty set seen); non-trivial = at least one judged step where the minimal set was a strict subset of the clients")
+	r.Rule("sequential history = fresh LBClient with 1-4 scripted fake BalancingClients, 20-200 (sometimes ~1000, 95% failing) steps of Do/DoTimeout/DoDeadline with scripted pending values, errors/500s, three HealthCheck kinds, AddClient/RemoveClients (incl. remove-all); each call judged against the (pending+penalty,total)-minimal set of a same-goroutine VerifLBState snapshot. burst = 4-16 goroutines x 40-250 calls with concurrent membership churn; parked scan = a fake's PendingRequests parks Do* mid-scan over 2-4 clients while RemoveClients (current / last / all / scanned / random subset) runs, then the scan is released; overflow = 299/300/301/305/700 penalised failures on one client within one window (single client, or the other reports 100000 pending), quiet > 3 s, penalty must be exactly and stably 0 and the recovered idle client must beat a client with 1 pending; near-cap round = fresh LBClient, one client filled to 295-299 penalties sequentially, then 8-16 failing calls parked in HealthCheck on a spin barrier and released by one atomic store, settled penalty read through VerifLBState; expiry = poll VerifLBState after penalised calls. distinct = (clients, healthcheck, failure rate, pending range, membership ops, cap reached, empty set seen); non-trivial = at least one judged step where the minimal set was a strict subset of the clients")
 	r.Assume("ties are broken by LBClient's own per-client total as exposed by VerifLBState (requests that were not penalised); whether a penalised request counts as 'completed' is not judged")
 	r.Assume("LBClient.Clients is non-empty when the LBClient is first used (documented precondition: an empty initial list panics by design and is not exercised); the empty set is reached through RemoveClients")
 	r.Assume("a step during which an expiry timer changed a penalty (second snapshot differs) is not judged; Go timers never fire early (lower bound of the 3s penalty lifetime needs no slack); upper bound uses 6s slack against a stall that is unbounded, and is not judged if the process heartbeat (20 ms ticks) was more than 1 s late in that window")
@@ -666,6 +675,23 @@ func TestC40(t *testing.T) {
 		}()
 	}
 
+	// > 300 penalised failures in one window, then quiet (sleeps ~4.5 s in the background)
+	ovBase := nSeq + nBurst + nExp + 1 + 10_000
+	ovN := 0
+	for _, single := range []bool{false, true} {
+		for _, count := range []int{299, 300, 301, 305, 700} {
+			idx := ovBase + ovN
+			ovN++
+			if !r.Want(idx) {
+				continue
+			}
+			bg.Add(1)
+			go func() {
+				defer bg.Done()
+				runOverflowQuiet(r, idx, count, single)
+			}()
+		}
+	}
 	var judged, skipped, constrained atomic.Int64
 	mon.Parallel(nSeq+nBurst, 0, func(i int) {
 		if !r.Want(i) {
@@ -695,8 +721,16 @@ func TestC40(t *testing.T) {
 		r.Cases(calls, class, true)
 		r.Event("bursts", 1)
 	})
+	// membership change during a parked selection scan
+	nPark := r.N(400, 20_000)
+	parkBase := nSeq + nBurst + nExp + 1 + 20_000
+	mon.Parallel(nPark, 0, func(k int) {
+		if r.Want(parkBase + k) {
+			runParkedScan(r, parkBase+k, r.Rand("parked", parkBase+k))
+		}
+	})
 	// near-cap rounds run on their own: their spinning goroutines need the cores
-	nNear := r.N(1500, 6_000)
+	nNear := r.N(500, 4_000)
 	runNearCap(r, nSeq+nBurst+nExp+1, nNear)
 	bg.Wait()
 	r.Event("lb_chosen_points", int(chosen.Load()))
@@ -710,6 +744,9 @@ func TestC40(t *testing.T) {
 		r.Require("seq_reached_cap", 1)
 		r.Require("expiry_waits", nExp+1)
 		r.Require("lb_chosen_points", nSeq*20)
+		r.Require("parked_scans", nPark*9/10)
+		r.Require("overflow_quiet_checks", ovN*8/10)
+		r.Require("overflow_recovered_choice_checks", 3)
 		r.Require("nearcap_rounds", nNear*9/10)
 		r.Require("nearcap_rounds_barrier_complete", nNear/2)
 	}
